@@ -12,3 +12,11 @@ def c10_shared_native_state(mech, witness):
     Single-engine histories are never excused."""
     return bool(mech.get("two_engines")) and mech.get("other_engine_touched_native_state_since_last_setup") is True \
         and not mech.get("single_engine")
+
+
+def c10_tauleap_propensity_overflow(mech, witness):
+    """tau-leap draws its event counts with std::poisson_distribution<long long>: when one channel's propensity*dt is
+    >= 2^63 or infinite the sampler rejects every candidate and iterate() never returns.  Only the probes that have
+    such a propensity BY CONSTRUCTION are excused; any other hang is reported."""
+    return mech.get("engine") == "tauleap" and mech.get("what") == "hang" and \
+        mech.get("propensity_times_dt_at_least_2^63_by_construction") is True
